@@ -20,10 +20,16 @@ import (
 	"time"
 )
 
-const (
-	RepoDir  = "/repo"
-	VerifDir = "/verif"
-)
+const VerifDir = "/verif"
+
+// RepoDir is the repository under test. VERIF_REPO overrides it for mutation confirmation on
+// a scratch copy (translator checks only: the library checks link /repo through go.mod).
+var RepoDir = func() string {
+	if d := os.Getenv("VERIF_REPO"); d != "" {
+		return d
+	}
+	return "/repo"
+}()
 
 // SelfPkg is the main package of the running driver (set by driver.Main), so
 // that BuildSelf rebuilds the same binary with other flags.
